@@ -205,7 +205,7 @@ class GMRF(Distribution):
             F = dft(self.dim, scale='sqrtn')   # unitary DFT matrix
             eigv = np.hstack([self._L_eigval, self._L_eigval[-1]])  # repeat last eigval to complete dim
             L_sqrt = diags(np.sqrt(eigv)) 
-            s = self.mean[:, np.newaxis] + (1/np.sqrt(self.prec))*np.real(F.conj() @ splinalg.spsolve(L_sqrt, xi))
+            s = self.mean[:, np.newaxis] + (1/np.sqrt(self.prec))*np.real(F.conj() @ splinalg.spsolve(L_sqrt, xi)).reshape(self.dim, N)
             
         elif (self._bc_type == 'neumann'):
 
@@ -215,7 +215,7 @@ class GMRF(Distribution):
                 xi = np.random.randn(self._diff_op.shape[0], N)   # standard Gaussian
 
             s = self.mean[:, np.newaxis] + (1/np.sqrt(self.prec))* \
-                splinalg.spsolve(self._chol.T, (splinalg.spsolve(self._chol, (self._diff_op.T @ xi)))) 
+                splinalg.spsolve(self._chol.T, (splinalg.spsolve(self._chol, (self._diff_op.T @ xi)))).reshape(self.dim, N)
         else:
             raise TypeError('Unexpected BC type (choose from zero, periodic, neumann or none)')
 
